@@ -5,6 +5,8 @@ import (
 	"fmt"
 	"strconv"
 	"strings"
+
+	"github.com/koykov/dyntpl"
 )
 
 func cloneCase(c *RCase) *RCase {
@@ -134,6 +136,18 @@ func init() {
 				mk(d(kind)+"{% include missing %}"+d(kind)),
 			)
 		}
+		// renders of many KiB (a context that grew large is still reset and its objects returned), through both reset
+		// forms: Reset, and ReleaseCtx + AcquireCtx
+		for _, pool := range []bool{false, true} {
+			for _, n := range []int{3000, 70000, 300000} {
+				c := &RCase{Pool: pool, Entries: true, Meta: map[string]any{"big-output-bytes": n}}
+				c.Tpls = []TplDef{{Key: "main", Src: "{%= si|vacquire(4) %}{%= big %}{%h= big %}{%= si|vdefer(6) %}{%= si|vacquire(7) %}", KeepFmt: true}, {Key: "probe", Src: "p", KeepFmt: true}}
+				c.Ops = []SOp{{Kind: "static", Name: "si", Val: int64(1)}, {Kind: "static", Name: "big", Val: strings.Repeat("x<y ", n/4)}, {Kind: "render", Key: "main"}, {Kind: "reset"},
+					{Kind: "render", Key: "probe"}, {Kind: "static", Name: "si", Val: int64(1)}, {Kind: "render", Key: "main"}, {Kind: "reset"}, {Kind: "render", Key: "probe"}}
+				cases = append(cases, c)
+				r.Dist["big-output"]++
+			}
+		}
 		runSessions(r, cases, func(c *RCase, i int, g, m string) string {
 			if w := outputDiffers(c, i, g, m); w != "" {
 				return w
@@ -145,6 +159,30 @@ func init() {
 			}
 			return ""
 		})
+		// a pool key registered a second time (another package's init, a late registration) while a context holds
+		// objects of the first registration: every object goes back to the pool it was taken from
+		func() {
+			dyntpl.VerifResetRegistry()
+			key, err, pan := regTpl("{%= si|vacquire(12) %}{%= si|vacquire(13) %}x", true)
+			if err != nil || pan != "" {
+				r.Internal("C18 re-registration template does not parse")
+				return
+			}
+			ctx := dyntpl.NewCtx()
+			ctx.SetStatic("si", 1)
+			evReset()
+			res := renderSafe(key, ctx)
+			_ = dyntpl.RegisterPool("vpool", vpool{"vpool-late"})
+			_ = dyntpl.RegisterPool("vpool2", vpool{"vpool2-late"})
+			ctx.Reset()
+			log := evStr()
+			r.Count("pool-registered-again", true)
+			r.Dist["pool-registered-again"]++
+			if res.Panic != "" || res.Err != nil || log != "acq12,acq13,rel12,rel13" {
+				r.Violate("pool-registered-again log="+log, "after a pool key was registered a second time the objects taken before are not returned to the pool they came from (log: acquisitions, then one rel<tag> per object; wrongpool<tag> = handed to another pool)",
+					map[string]any{"template": "{%= si|vacquire(12) %}{%= si|vacquire(13) %}x", "steps": []string{"render", `RegisterPool("vpool", other)`, `RegisterPool("vpool2", other)`, "ctx.Reset()"}, "event_log": log, "expected": "acq12,acq13,rel12,rel13", "error": res.ErrStr(), "panic": res.Panic})
+			}
+		}()
 		_ = strings.Join
 	}
 }
